@@ -1,5 +1,6 @@
 import SafeC.Driver
 import SafeC.Dispatch
+import SafeC.DriverHandlers
 /-!
 `safec_model`: reads op lines (see harness/hx.c), runs the Lean model of the named entry point
 on the same memory layout, prints the model's observation line.
@@ -18,6 +19,8 @@ def lookup (m : List (String × String)) (k : String) : Option String :=
 def processLine (line : String) : String := Id.run do
   let m := tokenMap line
   let id := (lookup m "id").getD "?"
+  if let some ops := lookup m "ops" then
+    if (lookup m "fn").isNone then return handlersLine id ops
   let some fn := lookup m "fn" | return s!"id={id} err=badop"
   let slack := (lookup m "slack").getD "1" != "0"
   let mut regs : Array Region := #[]
